@@ -15,71 +15,10 @@ SERVER_IO = ("pgcat::client::Client::send_and_receive_loop", "pgcat::client::Cli
              "pgcat::server::Server::send", "pgcat::server::Server::recv", "pgcat::server::Server::query")
 
 
-def run(ctx):
+def quoting_clauses(ctx, r2, F):
+    """the SET statements sync_parameters builds from a client's start-up parameters: how each value is placed into the SQL text
+    (shared by C12-R2: values arrive as written, and C11-R14: a value cannot end its constant and run as SQL)"""
     F = ctx.facts
-    ctx.explanation = ("ordering of sync_parameters before any client byte is sent to a freshly borrowed server, direct-flow taint of parameter values into the quoted SQL literal "
-                       "(format_args template decoded from the compiled constant), ParameterStatus handling updating both maps, startup merge, and agreement of the tracked set")
-    ctx.assumptions = ["which values PostgreSQL reports back in ParameterStatus is not modelled", "an intervening call between the map entry and the SQL literal is taken to be an escaper (its correctness is not evaluated)"]
-    # ---------------- R1
-    r1 = ctx.rule("C12-R1", "after a checkout, Server::sync_parameters(client's parameters) runs before anything of the client is sent to that server", floor=2)
-    h = ctx.body(H, r1)
-    if h:
-        syncs = h.calls(SYNC)
-        claim = h.calls("pgcat::server::Server::claim")
-        gets = h.calls("pgcat::pool::ConnectionPool::get")
-        if not syncs or not claim or not gets:
-            r1.missing("sync_parameters / claim / get in handle")
-        else:
-            io = [c.block for c in h.calls(*SERVER_IO)]
-            rm = [c.block for c in h.calls("pgcat::messages::read_message")]
-            wit = h.uncrossed_path([gets[0].block], io, blocks=[syncs[0].block])
-            r1.check(wit is None, "sync-before-io", "every path from the checkout to a server send/receive passes sync_parameters", "client traffic can reach a freshly borrowed server before its parameters are synchronised", "", wit and h.describe_path(wit))
-            fl = {p for o in origins(h, syncs[0].args[1]) if o.kind in ("place", "param") for p in o.proj if p.startswith(".")}
-            r1.check(".server_parameters" in fl, "sync-arg", "sync_parameters receives the client's server_parameters", "sync_parameters does not receive Client.server_parameters (%s)" % sorted(fl))
-            recv_ = {o.call.name for o in origins(h, syncs[0].args[0]) if o.kind == "call"}
-            r1.check("pgcat::pool::ConnectionPool::get" in recv_, "sync-receiver", "sync_parameters is called on the server just checked out", "sync_parameters receiver does not derive from the checkout")
-            # its error is propagated (a failed sync must not be followed by client traffic)
-            contE, brkE, _ = discr_edges(h, r"ControlFlow<", "Continue", origin_pred=lambda o: o.kind == "call" and o.call.name == SYNC)
-            wit = h.uncrossed_path([syncs[0].block], io, edges=contE)
-            r1.check(bool(contE) and wit is None, "sync-ok-before-io", "client traffic follows only a successful sync", "client traffic can follow a failed sync_parameters")
-    # ---------------- R2
-    # "successful" means the server took the values: Server::query returns Ok whatever the server answered, and the SETs are one
-    # multi-statement query (one implicit transaction: a refused value rolls the others back, the connection keeps the previous client's)
-    scb = ctx.body(SYNCC, r1)
-    rvb = F.body("pgcat::server::Server::recv::{closure#0}")
-    if scb and rvb:
-        rsw_ = switches(rvb)
-        code_sw_ = [sw for sw in rsw_ if sw.ty in ("char", "u8", "u32") and {v for v, _ in sw.targets} >= {90, 69, 67}]
-        flags = set()
-        if code_sw_:
-            earm = dict(code_sw_[0].targets)[69]
-            for blk, i, st in rvb.assigns():
-                if rvb.dominates(earm, blk) and st["rv"]["k"] == "use" and const_int(st["rv"].get("op")) == 1:
-                    f = proj_fields(st["lhs"])[-1:]
-                    if f and f[0] not in ("bad", "data_available", "in_copy_mode", "in_transaction"):
-                        flags.add(f[0])
-        qc = scb.calls("pgcat::server::Server::query")
-        oks = [blk for blk, i, st in scb.assigns() if st["lhs"]["l"] == 0 and not st["lhs"]["p"] and (st["rv"]["k"] == "agg" and st["rv"].get("variant") == "Ok" or st["rv"]["k"] == "use")]
-        ssw_ = switches(scb)
-        okE = set()
-        for f in flags:
-            t_, f_ = field_bool_edges(scb, f, ssw_)
-            okE |= {e for e in f_ if any(e[0] in scb.reach([q.target]) for q in qc if q.target is not None)}
-        marks_ = [c.block for c in scb.calls("pgcat::server::Server::mark_bad")]
-        # the query itself failed (I/O): its Err is what is returned
-        _t, isok_f, _ = call_bool_edges(scb, "core::result::Result::is_ok", switches_cache=ssw_)
-        iserr_t, _f, _ = call_bool_edges(scb, "core::result::Result::is_err", switches_cache=ssw_)
-        errE_, _o, _ = discr_edges(scb, r"core::result::Result<\(\), pgcat::errors::Error>", "Err", switches_cache=ssw_)
-        okE |= set(isok_f) | set(iserr_t) | set(errE_)
-        if qc:
-            rets_ = [bb for bb, blk in enumerate(scb.blocks) if blk["term"]["k"] == "return"]
-            # returns reached after the query without having seen "no ErrorResponse" and without giving the connection up
-            w_ = scb.uncrossed_path([q.target for q in qc if q.target is not None], rets_, edges=okE, blocks=marks_)
-            r1.check(bool(flags) and bool(okE) and w_ is None, "sync-result-verified", "sync_parameters returns after its query only where the server sent no ErrorResponse (Server.%s), or gives the connection up" % sorted(flags),
-                     "sync_parameters reports success whatever the server answered: a tracked parameter value the server refuses (a client that announced DateStyle=bogus) rolls the whole multi-statement SET back, "
-                     "and the client's statements run under the previous client's application_name / TimeZone / ...", qc[0].where(), w_ and scb.describe_path(w_))
-
-    r2 = ctx.rule("C12-R2", "in sync_parameters a parameter value is not interpolated raw into a quoted SQL literal", floor=2)
     sc = ctx.body(SYNCC, r2)
     if sc:
         fmts = sc.calls("re:^core::fmt::Arguments::.*new")
@@ -153,6 +92,82 @@ def run(ctx):
                     r2.ok("placeholder#%d" % k, "unquoted placeholder (parameter name from the tracked set)")
         if not found:
             r2.missing("format!(\"SET .. TO ..\") in sync_parameters")
+    return sc
+
+
+def run(ctx):
+    F = ctx.facts
+    ctx.explanation = ("ordering of sync_parameters before any client byte is sent to a freshly borrowed server, direct-flow taint of parameter values into the quoted SQL literal "
+                       "(format_args template decoded from the compiled constant), ParameterStatus handling updating both maps, startup merge, and agreement of the tracked set")
+    ctx.assumptions = ["which values PostgreSQL reports back in ParameterStatus is not modelled", "an intervening call between the map entry and the SQL literal is taken to be an escaper (its correctness is not evaluated)"]
+    # ---------------- R1
+    r1 = ctx.rule("C12-R1", "after a checkout, Server::sync_parameters(client's parameters) runs before anything of the client is sent to that server", floor=2)
+    h = ctx.body(H, r1)
+    if h:
+        syncs = h.calls(SYNC)
+        claim = h.calls("pgcat::server::Server::claim")
+        gets = h.calls("pgcat::pool::ConnectionPool::get")
+        if not syncs or not claim or not gets:
+            r1.missing("sync_parameters / claim / get in handle")
+        else:
+            io = [c.block for c in h.calls(*SERVER_IO)]
+            rm = [c.block for c in h.calls("pgcat::messages::read_message")]
+            wit = h.uncrossed_path([gets[0].block], io, blocks=[syncs[0].block])
+            r1.check(wit is None, "sync-before-io", "every path from the checkout to a server send/receive passes sync_parameters", "client traffic can reach a freshly borrowed server before its parameters are synchronised", "", wit and h.describe_path(wit))
+            fl = {p for o in origins(h, syncs[0].args[1]) if o.kind in ("place", "param") for p in o.proj if p.startswith(".")}
+            r1.check(".server_parameters" in fl, "sync-arg", "sync_parameters receives the client's server_parameters", "sync_parameters does not receive Client.server_parameters (%s)" % sorted(fl))
+            recv_ = {o.call.name for o in origins(h, syncs[0].args[0]) if o.kind == "call"}
+            r1.check("pgcat::pool::ConnectionPool::get" in recv_, "sync-receiver", "sync_parameters is called on the server just checked out", "sync_parameters receiver does not derive from the checkout")
+            # its error is propagated (a failed sync must not be followed by client traffic)
+            contE, brkE, _ = discr_edges(h, r"ControlFlow<", "Continue", origin_pred=lambda o: o.kind == "call" and o.call.name == SYNC)
+            wit = h.uncrossed_path([syncs[0].block], io, edges=contE)
+            r1.check(bool(contE) and wit is None, "sync-ok-before-io", "client traffic follows only a successful sync", "client traffic can follow a failed sync_parameters")
+    # ---------------- R2
+    # "successful" means the server took the values: Server::query returns Ok whatever the server answered, and the SETs are one
+    # multi-statement query (one implicit transaction: a refused value rolls the others back, the connection keeps the previous client's)
+    scb = ctx.body(SYNCC, r1)
+    rvb = F.body("pgcat::server::Server::recv::{closure#0}")
+    if scb and rvb:
+        rsw_ = switches(rvb)
+        code_sw_ = [sw for sw in rsw_ if sw.ty in ("char", "u8", "u32") and {v for v, _ in sw.targets} >= {90, 69, 67}]
+        flags = set()
+        if code_sw_:
+            earm = dict(code_sw_[0].targets)[69]
+            for blk, i, st in rvb.assigns():
+                if rvb.dominates(earm, blk) and st["rv"]["k"] == "use" and const_int(st["rv"].get("op")) == 1:
+                    f = proj_fields(st["lhs"])[-1:]
+                    if f and f[0] not in ("bad", "data_available", "in_copy_mode", "in_transaction"):
+                        flags.add(f[0])
+        qc = scb.calls("pgcat::server::Server::query")
+        oks = [blk for blk, i, st in scb.assigns() if st["lhs"]["l"] == 0 and not st["lhs"]["p"] and (st["rv"]["k"] == "agg" and st["rv"].get("variant") == "Ok" or st["rv"]["k"] == "use")]
+        ssw_ = switches(scb)
+        okE = set()
+        for f in flags:
+            t_, f_ = field_bool_edges(scb, f, ssw_)
+            okE |= {e for e in f_ if any(e[0] in scb.reach([q.target]) for q in qc if q.target is not None)}
+        marks_ = [c.block for c in scb.calls("pgcat::server::Server::mark_bad")]
+        # the query itself failed (I/O): its Err is what is returned
+        _t, isok_f, _ = call_bool_edges(scb, "core::result::Result::is_ok", switches_cache=ssw_)
+        iserr_t, _f, _ = call_bool_edges(scb, "core::result::Result::is_err", switches_cache=ssw_)
+        errE_, _o, _ = discr_edges(scb, r"core::result::Result<\(\), pgcat::errors::Error>", "Err", switches_cache=ssw_)
+        okE |= set(isok_f) | set(iserr_t) | set(errE_)
+        if qc:
+            rets_ = [bb for bb, blk in enumerate(scb.blocks) if blk["term"]["k"] == "return"]
+            # returns reached after the query without having seen "no ErrorResponse" and without giving the connection up
+            w_ = scb.uncrossed_path([q.target for q in qc if q.target is not None], rets_, edges=okE, blocks=marks_)
+            # ... nor go on to a further query of its own: Server::query() starts by clearing the flag, what an earlier statement was answered is gone with it
+            flagE = okE - (set(isok_f) | set(iserr_t) | set(errE_))
+            w2_ = scb.uncrossed_path([q.target for q in qc if q.target is not None], [q.block for q in qc], edges=flagE, blocks=marks_ + rets_)
+            r1.check(w2_ is None, "sync-each-statement-verified", "no further query of sync_parameters is sent before the answer to the previous one was looked at",
+                     "sync_parameters sends a further query without having looked at Server.%s after the previous one: query() clears the flag when it starts, so only the last SET's answer is ever seen - a value the server "
+                     "refuses (TimeZone=Mars/Phobos) followed by an accepted one is reported as success, and the client's statements run under the previous client's value" % sorted(flags), qc[0].where(), w2_ and scb.describe_path(w2_))
+            r1.check(bool(flags) and bool(okE) and w_ is None, "sync-result-verified", "sync_parameters returns after its query only where the server sent no ErrorResponse (Server.%s), or gives the connection up" % sorted(flags),
+                     "sync_parameters reports success whatever the server answered: a tracked parameter value the server refuses (a client that announced DateStyle=bogus) rolls the whole multi-statement SET back, "
+                     "and the client's statements run under the previous client's application_name / TimeZone / ...", qc[0].where(), w_ and scb.describe_path(w_))
+
+    r2 = ctx.rule("C12-R2", "in sync_parameters a parameter value is not interpolated raw into a quoted SQL literal", floor=2)
+    sc = quoting_clauses(ctx, r2, F)
+    if sc:
         # keys come from the tracked set only
         cp = F.body("pgcat::server::ServerParameters::compare_params")
         if cp:
